@@ -123,9 +123,17 @@ OperandFaults(e, ctx, env) ==
        {[e EXCEPT !.a = <<e.a[1], [e.a[2] EXCEPT !.a = [e.a[2].a EXCEPT ![j] = x]]>>] : j \in 1..Len(e.a[2].a), x \in WrongLeaves(lt)}
   ELSE {}
 
+\* `!` (once, and stacked twice) put in front of an operand that is not Boolean: a text / number argument, operand or list item
+NotFaults(e, ctx, env) ==
+  IF e.k \in {"call", "bin", "list", "idx"} THEN
+       UNION { IF TypeOf(e.a[i], ctx, env) \in {"S", "N"} /\ ~(e.k = "call" /\ i = 0)
+               THEN { [e EXCEPT !.a = [e.a EXCEPT ![i] = ANot(e.a[i])]], [e EXCEPT !.a = [e.a EXCEPT ![i] = ANot(ANot(e.a[i]))]] }
+               ELSE {} : i \in 1..Len(e.a) }
+  ELSE {}
+
 RECURSIVE Mutants(_, _, _)
 Mutants(e, ctx, env) ==
-  LocalFaults(e) \cup OperandFaults(e, ctx, env)
+  LocalFaults(e) \cup OperandFaults(e, ctx, env) \cup NotFaults(e, ctx, env)
   \cup UNION { {[e EXCEPT !.a = [e.a EXCEPT ![i] = m]] : m \in Mutants(e.a[i], ctx, env)} : i \in 1..Len(e.a) }
 
 =============================================================================
